@@ -124,9 +124,9 @@ Qed.
 (* the range lowerbound .. max(lowerbound, len(initial_numbers) + 1 + extra) contains len(initial_numbers) + 1 *)
 Lemma range_contains_upper lb n extra : (lb <= S n)%nat -> (0 <= extra)%Z -> In (S n) (mgsm_range lb n extra).
 Proof.
-  intros Hlb He. unfold mgsm_range. apply in_seq.
-  pose proof (Z.le_max_r (Z.of_nat lb + 1) (Z.of_nat n + 2 + extra)) as H1. pose proof (Z.le_max_l (Z.of_nat lb + 1) (Z.of_nat n + 2 + extra)) as H2.
-  set (M := Z.max (Z.of_nat lb + 1) (Z.of_nat n + 2 + extra)) in *. split; [exact Hlb|]. rewrite Nat2Z.inj_lt, Nat2Z.inj_add, Z2Nat.id by lia. lia.
+  intros Hlb He. unfold mgsm_range, mgsm_first. cbv zeta. apply in_seq. set (lb' := Nat.max 1 lb). assert (Hlb' : (lb' <= S n)%nat) by (unfold lb'; lia). clearbody lb'. clear Hlb. rename lb' into lb0.
+  pose proof (Z.le_max_r (Z.of_nat lb0 + 1) (Z.of_nat n + 2 + extra)) as H1. pose proof (Z.le_max_l (Z.of_nat lb0 + 1) (Z.of_nat n + 2 + extra)) as H2.
+  set (M := Z.max (Z.of_nat lb0 + 1) (Z.of_nat n + 2 + extra)) in *. split; [exact Hlb'|]. rewrite Nat2Z.inj_lt, Nat2Z.inj_add, Z2Nat.id by lia. lia.
 Qed.
 
 (* MinGenSet.solve ALWAYS reports a size (under the solver specification with conclusive statuses) when every retained
